@@ -72,8 +72,12 @@ func (c *c19Checker) After(w *World, ev *Event) []Failure {
 		add := func(clause string, kv ...string) {
 			fs = append(fs, fail(clause, append(append([]string{}, ctx...), kv...)...))
 		}
-		isV6 := strings.HasPrefix(o.Hostname, "[") && strings.HasSuffix(o.Hostname, "]") && len(o.Hostname) >= 2
-		if o.V6 != isV6 {
+		// bracketed AND the standard's serialization of an address => must be true; not bracketed =>
+		// must be false; bracketed junk (reachable only under lax host parsing, e.g. %5Bfoo%5D) => no
+		// demand: the statement says "a bracketed IPv6 literal", and [foo] is not one
+		shape := strings.HasPrefix(o.Hostname, "[") && strings.HasSuffix(o.Hostname, "]") && len(o.Hostname) >= 2
+		canon := shape && model.CanonicalIPv6(o.Hostname[1:len(o.Hostname)-1])
+		if (canon && !o.V6) || (!shape && o.V6) {
 			add("C19.IsIPv6", "IsIPv6", fmt.Sprint(o.V6), "hostname", q(o.Hostname))
 		}
 		isV4 := special[o.Scheme] && isCanonV4(o.Hostname)
